@@ -67,7 +67,7 @@ def do_import(src, name):
     with Scratch(name) as wt:
         txt = open(os.path.join(src, "demo.py")).read()
         import re
-        txt = re.sub(r"/tmp/seed/C\d\d", wt, txt)        # demos written against the seeding worktree's path
+        txt = re.sub(r"/tmp/seed\d?/C\d\d", wt, txt)        # demos written against the seeding worktree's path
         open(os.path.join(wt, "_demo.py"), "w").write(txt)
         rc0, out0 = demo(wt, "_demo.py")
         rc, out = apply_patch(wt, patch)
